@@ -20,8 +20,11 @@ cp $WT/go.sum $ROOT/sim/go.sum
 if ! (cd $ROOT/sim && go build -o $ROOT/chainsim . ) 2> $ROOT/build.err; then
   cat $ROOT/build.err; echo "BUILD-FAILED"; rm -rf $ROOT; exit 2
 fi
-VERIF_ROOT=$ROOT $ROOT/chainsim check $PROP $TIER
-rc=$?
+rc=0
+for P in $PROP; do
+  VERIF_ROOT=$ROOT $ROOT/chainsim check $P $TIER; r=$?
+  [ $r -ne 0 ] && rc=$r
+done
 if [ $rc -eq 1 ] && [ -n "${KEEP_REPLAY:-}" ]; then mkdir -p $KEEP_REPLAY; cp $ROOT/replays/* $KEEP_REPLAY/ 2>/dev/null; fi
 rm -rf $ROOT
 exit $rc
